@@ -59,10 +59,16 @@ def fetchNode (st : Store) (n : Nat) (props : List (Nat × PV)) : List (Nat × P
     | .node n' k => if n' == n && !props.any (·.1 == k) then some (k, p.2) else none
     | .edge _ _ => none)
 
-/-- extend_node_properties_from_store: the fetched entries are inserted in scan order — for a key
-    with several entries the LAST one scanned, i.e. the oldest, wins. -/
+/-- the insertion loop of extend_*_properties_from_store over the fetched entries (scan order = newest
+    entry of a key first).  `newest = false` (pinned tree): `props.insert(..)` — for a key with several
+    entries the LAST one scanned, i.e. the oldest, wins.  `newest = true` (after the `fix:`):
+    `props.entry(..).or_insert(..)` — the first one scanned stays. -/
+def extendWith (newest : Bool) (fetched props : List (Nat × PV)) : List (Nat × PV) :=
+  fetched.foldl (fun m kv => if newest && m.any (·.1 == kv.1) then m else upsert kv.1 kv.2 m) props
+
+/-- extend_node_properties_from_store (insertion as the current source does it: regenerated table) -/
 def extendNode (st : Store) (n : Nat) (props : List (Nat × PV)) : List (Nat × PV) :=
-  (st.fetchNode n props).foldl (fun m kv => upsert kv.1 kv.2 m) props
+  extendWith Generated.extendKeepsNewest (st.fetchNode n props) props
 
 def fetchEdge (st : Store) (e : Edge) (props : List (Nat × PV)) : List (Nat × PV) :=
   st.filterMap (fun p =>
@@ -72,7 +78,7 @@ def fetchEdge (st : Store) (e : Edge) (props : List (Nat × PV)) : List (Nat × 
 
 /-- extend_edge_properties_from_store -/
 def extendEdge (st : Store) (e : Edge) (props : List (Nat × PV)) : List (Nat × PV) :=
-  (st.fetchEdge e props).foldl (fun m kv => upsert kv.1 kv.2 m) props
+  extendWith Generated.extendKeepsNewest (st.fetchEdge e props) props
 
 end Store
 
